@@ -10,6 +10,14 @@ CLAIMED = {
    "Seeded search over clean-channel sessions (all 5 FEC schemes, E, B, parity, cenc, signalling, publish modes, queues, multiplex, interleave, 1-7 objects at boundary lengths, transfer counts, receive-once, sources, FS writer) run through the real Sender and MultiReceiver under a simulated clock and poll schedule; delivery reference model checks copies, bytes and metadata. Sampling, not proof.",
    "harness RFC decoder / FDT reader / models; hooks H1,H3 faithful; two recorded known findings (no-cache re-delivery, FDT de-listing between transfers)",
    "deterministic simulation (seeded scenario swarm, fault-free configuration) + delivery reference model"),
+ "C02": ("fault_enumeration", "4.C02",
+   "Every loss subset (all 2^n masks, n<=12 quick / n<=16 thorough) of a grid of 70 tiny sessions over all 5 FEC schemes is delivered to a fresh real receiver; plus seeded sessions under iid/burst loss, duplication, first-FDT loss and per-block threshold patterns (k, k-1, k+1 survivors). The harness computes the property's precondition from the delivered multiset and demands a complete exact copy when it holds; duplicates must not change the outcome.",
+   "harness RFC decoder / partition reference / FDT reader; one recorded known finding (empty object whose lone packet precedes its FDT)",
+   "deterministic simulation with fault enumeration (exhaustive loss subsets on small sessions + seeded loss/duplication schedules) + recoverability oracle"),
+ "C03": ("exploration", "4.C03",
+   "All permutations of the packets of 13 tiny sessions (<=7 packets) and seeded multi-transfer/carousel sessions under drop, duplication (adjacent and late), swap/jitter/full-shuffle reordering and, when MD5 is announced and checked, payload bit flips/truncation/extension; oracle: complete => exact bytes, never complete and failed.",
+   "TOIs unique per scenario; harness decoder; sampling except the enumerated permutations",
+   "deterministic simulation (seeded + exhaustive reordering, duplication, loss, payload corruption) + byte-exactness oracle"),
 }
 NOT_APPLICABLE = {
  "C06": "pure codec function of its input (encode/parse of one packet): no schedule, clock, fault or interleaving to simulate; deciding it is input enumeration, not simulation (DESIGN.md s5)",
